@@ -8,7 +8,8 @@ METHODS = ["poll_next", "poll_ready", "start_send", "poll_flush", "poll_close"]
 def check(ctx):
     ctx.explanation = (
         "The C13 rules R1-R3 applied to the five adapter methods of fastrace-futures (config E) with the finishing "
-        "table poll_next: Ready(None) only; poll_close: Ready(_); poll_ready/start_send/poll_flush: never.")
+        "table poll_next: Ready(None) only; poll_close: Ready(_); poll_ready/start_send/poll_flush: never; R4 drop order of the adapter's fields; R5 Span::set_local_parent opens a "
+        "scope on every path (C13-R5).")
     ctx.not_decided = "polling from other threads, restoration of context (C10), delivery (C01/C03)."
     facts = ctx.facts("E")
     found = 0
@@ -23,3 +24,5 @@ def check(ctx):
         adapters.check_adapter(ctx, facts, fns[0], "", kind="span")
     ctx.floor("R1", "fastrace_futures", found, 5, "adapter methods")
     adapters.rule_drop_order(ctx, facts, "R4", "fastrace_futures::InSpan")
+    from .. import scopes
+    scopes.rule_scope_always_opened(ctx, facts, "R5")
